@@ -98,6 +98,7 @@ func buildAll(cfgs []config) []built {
 			if cf.NoMap {
 				yml = strings.Replace(yml, mapBinding, "", 1)
 				if yml == files["gqlgen.yml"] {
+					probe.Cleanup()
 					common.Broken("probe gqlgen.yml has no MapIn binding to remove")
 				}
 			}
@@ -272,6 +273,7 @@ func main() {
 func replay(builds []built, path string) int {
 	b, err := os.ReadFile(path)
 	if err != nil {
+		probe.Cleanup()
 		common.Broken("replay: %v", err)
 	}
 	var doc struct {
@@ -295,6 +297,7 @@ func replay(builds []built, path string) int {
 			return 0
 		}
 	}
+	probe.Cleanup()
 	common.Broken("replay: configuration %q is not built in this tier (known: %s)", name, strings.Join(names(builds), ", "))
 	return 2
 }
